@@ -32,7 +32,7 @@ theorem C13_stop_tag_exact (parent : Tag) (st : St) (ws : Bytes) (n0 : UInt8) (n
 rdf:Description) with no attribute pending; the stream holds the elements `<ns:name>v</ns:name>`, each behind any run of
 bytes other than '<' (white space of any kind and any length up to 1410 bytes), then `R`.  Each element satisfies `Elem.OK`
 (prefix without ':', not starting with '/' or '?'; local name without '>', '/' or white space; tag within the 128-byte
-look-ahead; value without '<', not starting with white space, within the first 512-byte window; the property is neither
+look-ahead; value without '<', not starting with white space, shorter than 1536 bytes (any of the three look-ahead windows); the property is neither
 an array nor the root).  Then the rounds of readTag over the list hand the parser layer exactly one token per element —
 kind element, parent `parent`, property `identify ns name`, value v — in document order, consume exactly the elements, and
 go on behind the last one (`R`) exactly as they would there.  -/
